@@ -76,6 +76,7 @@ Inductive op :=
 | OWithoutSuffixChI (ch max : N) | OWithoutPrefixChI (ch max : N)
 | OWithWord (idx : N) (a : sarg) (sep : list N)
 | OIndented (n ch : N)
+| OEscaped (seps : list N) (esc : N)
 (* s = <producer>(...) : the result is move-assigned to the subject *)
 | OAssign (o : op).
 
@@ -462,6 +463,23 @@ Definition indented1 (s : str1) (n ch : N) : str1 :=
        let r0 := if (nthN 0 (abs s) =? 13) || (nthN 0 (abs s) =? 10) then snd (set_from empty1 (Some (src_of pad)) 0 NOLIMIT) else empty1 in
        indent_loop (src_of pad) false (abs s) r0.
 
+(* String::WithCharsEscaped: escapedName += escapeChar / escapedName += curChar *)
+Fixpoint esc_loop (seps : list N) (esc : N) (prevEsc : bool) (prevCh : N) (l : list N) (r : str1) : str1 :=
+  match l with
+  | [] => r
+  | cur :: t =>
+    let next := nthN 0 t in
+    let pre := negb prevEsc &&
+               (is_sep seps cur || ((cur =? esc) && negb (next =? 0) && negb (next =? esc) && negb (is_sep seps next))) in
+    esc_loop seps esc ((cur =? esc) && negb (prevCh =? esc)) cur t (append_ch (if pre then append_ch r esc else r) cur)
+  end.
+Definition escaped1 (s : str1) (seps : list N) (esc : N) : str1 :=
+  let l := abs s in
+  if esc =? 0 then ctor_copy (src_of s)
+  else if (count_if (is_sep seps) l =? 0) && (count_ch esc l =? 0) then ctor_copy (src_of s)
+  else esc_loop seps esc false 0 l
+         (snd (prealloc empty1 (u32 (slen s + u32 (2 * u32 (count_if (is_sep seps) l + count_ch esc l)))))).
+
 Definition produce (s : str1) (o : op) : option out1 :=
   let me := src_of s in
   let sa (a : sarg) := osrc s (arg_src a) in
@@ -524,6 +542,7 @@ Definition produce (s : str1) (o : op) : option out1 :=
       Some (R1Str (ctor_sub me (lenN (abs s) - lenN (strip_ch_prefix_nc (abs s) ch max)) NOLIMIT))
   | OWithWord idx a sep => Some (R1Str (with_word s idx (sa a) sep))
   | OIndented n ch => Some (R1Str (indented1 s n ch))
+  | OEscaped seps esc => Some (R1Str (escaped1 s seps esc))
   | _ => None
   end.
 
@@ -669,6 +688,7 @@ Definition produce0 (l : list N) (o : op) : option out0 :=
   | OWithoutPrefixChI ch max => Some (R0Str (strip_ch_prefix_nc l ch max))
   | OWithWord idx a sep => Some (R0Str (l0_with_word l idx (sb a) sep))
   | OIndented n ch => Some (R0Str (l0_indented l n ch))
+  | OEscaped seps esc => Some (R0Str (l0_escaped l seps esc))
   | _ => None
   end.
 
